@@ -24,6 +24,32 @@ def run(ctx, gen_status):
                        '' if not bad else 'generated state machine and implementation differ on %d sequence(s), e.g. %s -> impl %s'
                        % (len(bad), cases[bad[0]], res[bad[0]]['obs']))
     engine_histories(ctx)
+    distributed_histories(ctx)
+
+
+def distributed_histories(ctx):
+    """the distributed optimizers (gloo groups of 1 and 2 ranks): every noised step is recorded once with the sigma and the rate in force"""
+    r = ctx.rng
+    for W in (1, 2):
+        cases = []
+        for clip, mode in (('per_layer', 'hooks'), ('flat', 'hooks'), ('per_layer', 'ew')):
+            k = r.randint(1, 3)
+            cases.append({'seed': r.randint(0, 10**5), 'model': 'lin', 'B': 4 * W, 'sigma': r.choice([0.7, 1.3]), 'C': 0.4, 'clipping': clip, 'mode': mode,
+                          'reduction': 'mean', 'scale': 1.0, 'shards': [[r.randint(1, 3) for _ in range(W)] for _ in range(k)]})
+        res = vlib.run_impl('dist_runs.py', {'W': W, 'cases': cases}, timeout=900)['results']
+        for c, rr in zip(cases, res):
+            cw = dict(c, W=W, dist_hist=True)
+            ctx.case(cw, nontrivial=True, kind='dist-history/W%d/%s-%s' % (W, c['clipping'], c['mode']))
+            for i, rk in enumerate(rr['ranks']):
+                if rk.get('error'):
+                    ctx.fail('dist-error', 'rank %d raised or hung: %s' % (i, rk['error'][:200]), cw)
+                    break
+                want = [[c['sigma'], 0.25, rk['nsteps']]]       # the harness loader has 4 batches: sample rate 1/4
+                if rk['hist'] != want:
+                    ctx.fail('accounted-rate' if [h[:1] + h[2:] for h in rk['hist']] == [w[:1] + w[2:] for w in want] else 'logical-steps-vs-records',
+                             '%s on rank %d of %d recorded %s, expected %s' % (rk.get('opt_class'), i, W, rk['hist'], want), cw)
+                    break
+        ctx.traces += len(cases)
 
 
 def engine_histories(ctx, n=None):
@@ -75,4 +101,9 @@ def replay_case(ctx, failure):
     if 'ops' in c:
         r = vlib.run_impl('optim_ops.py', {'cases': [c]})['results'][0]
         oc.oracle_accounting(ctx, c, r)
+    elif c.get('dist_hist'):
+        c2 = {k: v for k, v in c.items() if k not in ('W', 'dist_hist')}
+        rr = vlib.run_impl('dist_runs.py', {'W': c['W'], 'cases': [c2]}, timeout=600)['results'][0]
+        bad = [rk for rk in rr['ranks'] if rk.get('error') or rk['hist'] != [[c['sigma'], 0.25, rk['nsteps']]]]
+        return not bad, [rk.get('hist') for rk in bad] or 'holds'
     return len(ctx.failures) == n0, ctx.failures[n0:] or 'holds'
